@@ -177,6 +177,11 @@ func (e *executor) Prepare(workflow *Workflow, workflowContext map[string][]byte
 				if err := validateScopeRoot(outputSchemaData.SchemaValue); err != nil {
 					return nil, &ErrInvalidWorkflow{fmt.Errorf("invalid output schema for output %q (%w)", outputID, err)}
 				}
+				// A reference to an object the schema does not define would otherwise panic when the
+				// output is validated at the end of a run.
+				if err := applySelfNamespace(outputSchemaData.SchemaValue); err != nil {
+					return nil, &ErrInvalidWorkflow{fmt.Errorf("invalid output schema for output %q (%w)", outputID, err)}
+				}
 			}
 			outputSchema = outputSchemaData
 		}
@@ -242,8 +247,23 @@ func (e *executor) processInput(workflow *Workflow) (schema.Scope, error) {
 	if err := validateScopeRoot(typedInput); err != nil {
 		return nil, &ErrInvalidWorkflow{fmt.Errorf("invalid workflow input section (%w)", err)}
 	}
-	typedInput.ApplySelf()
+	if err := applySelfNamespace(typedInput); err != nil {
+		return nil, &ErrInvalidWorkflow{fmt.Errorf("invalid workflow input section (%w)", err)}
+	}
 	return typedInput, nil
+}
+
+// applySelfNamespace links the references of a scope written in a workflow file to the scope's own
+// objects. The schema library panics on a reference to an object the scope does not define; that is
+// reported as an error of the workflow.
+func applySelfNamespace(scope schema.Scope) (err error) {
+	defer func() {
+		if r := recover(); r != nil {
+			err = fmt.Errorf("%v", r)
+		}
+	}()
+	scope.ApplySelf()
+	return nil
 }
 
 // validateScopeRoot makes sure the root of a scope written in a workflow file names one of the
